@@ -24,6 +24,7 @@ func checkC04Typed(c *Ctx, n int) {
 		portTag := `long:"port" short:"p"`
 		var env []EnvVar
 		needCmd, needReq, rootOptional := false, false, true
+		execParent := false
 		longName := ""
 		opts := flags.Options(0)
 		causes := []cause{
@@ -43,6 +44,8 @@ func checkC04Typed(c *Ctx, n int) {
 			{"required option missing", []string{"--flag"}, flags.ErrRequired},
 			{"command missing", []string{"--flag"}, flags.ErrCommandRequired},
 			{"unknown command", []string{"zzz"}, flags.ErrUnknownCommand},
+			{"unknown word below an executable command that requires a subcommand", []string{"remote", "bogus", "-f"}, flags.ErrUnknownCommand},
+			{"no word below an executable command that requires a subcommand", []string{"remote", "-f"}, flags.ErrCommandRequired},
 			{"help requested", []string{"--help"}, flags.ErrHelp},
 			{"help requested behind other options", []string{"-f", "--port=1", "-h"}, flags.ErrHelp},
 			{"callback refuses", []string{"--cb=!no"}, flags.ErrMarshal},
@@ -58,6 +61,8 @@ func checkC04Typed(c *Ctx, n int) {
 			needReq = true
 		case "command missing", "unknown command":
 			needCmd, rootOptional = true, false
+		case "unknown word below an executable command that requires a subcommand", "no word below an executable command that requires a subcommand":
+			execParent = true
 		case "help requested", "help requested behind other options":
 			opts |= flags.HelpFlag
 			// (a long name that leaves from a dozen down to no columns for the descriptions)
@@ -89,6 +94,12 @@ func checkC04Typed(c *Ctx, n int) {
 		}
 		cs := &Case{Name: "app", NsDelim: ".", EnvNsDelim: "_", Env: env, Opts: opts}
 		cs.Build = []BuildOp{{Kind: "addgroup", Target: 1, Short: "Application Options", Struct: root}}
+		if execParent {
+			// `remote` can be executed (a Commander) and has a subcommand of its own, which is required
+			cs.Build = append(cs.Build, BuildOp{Kind: "addcommand", Target: 1, Name: "remote", Short: "prog remote", Struct: &StructDesc{}, Commander: 1 + r.Intn(3)},
+				BuildOp{Kind: "addcommand", Target: 2, Name: "add", Short: "prog add", Struct: &StructDesc{}})
+			rootOptional = r.Intn(2) == 0
+		}
 		if rootOptional {
 			cs.Build = append(cs.Build, BuildOp{Kind: "setcmd", Target: 1, Attr: "subopt", Vals: []string{"1"}})
 		}
